@@ -140,8 +140,12 @@ def run(chk):
             fn = lambda p, ca=ca, sa=sa, tx=tx, ty=ty: [p[0] * ca - p[1] * sa + tx, p[0] * sa + p[1] * ca + ty]
             qfn = lambda q, fn=fn: tuple(fn([q[0], q[1]])) + (q[2],)
             w2 = map_points(wj, fn, dangle=al)
-        a = cs.add_world(wj)
-        b = cs.add_world(w2)
+        # the invariance is judged on worlds built as a user builds them (model=False: no hook, all acceleration shortcuts on);
+        # the modelled copies (for slabs and faults evaluated with the culling hook off) are compared with the model only
+        am = cs.add_world(wj)
+        bm = cs.add_world(w2)
+        a = cs.add_world(wj, model=False)
+        b = cs.add_world(w2, model=False)
         feats = wj["features"]
         # aimed at the transform faults between ridge segments: points around the middle of each transform fault
         extra = []
@@ -180,6 +184,8 @@ def run(chk):
                 q, d = extra[qi - 24]
             if d < 0:
                 continue
+            cs.p3(am, q, d, PROPS)
+            cs.p3(bm, qfn(q), d, PROPS)
             i1 = cs.p3(a, q, d, PROPS)
             i2 = cs.p3(b, qfn(q), d, PROPS)
             # perturbed copies of the unmoved query (boundary detection)
